@@ -2,8 +2,16 @@
 """Regenerates MANIFEST.json from checks.json + props_meta.json. Run after editing either."""
 import json, os
 R = os.path.dirname(os.path.abspath(__file__))
-cfg = json.load(open(os.path.join(R, "checks.json")))
+cfg = {}
+if os.path.exists(os.path.join(R, "checks.json")):
+    cfg.update(json.load(open(os.path.join(R, "checks.json"))))
+for f in sorted(os.listdir(os.path.join(R, "checks.d"))) if os.path.isdir(os.path.join(R, "checks.d")) else []:
+    if f.endswith(".json"):
+        cfg.update(json.load(open(os.path.join(R, "checks.d", f))))
 meta = json.load(open(os.path.join(R, "props_meta.json")))
+for f in sorted(os.listdir(os.path.join(R, "props_meta.d"))) if os.path.isdir(os.path.join(R, "props_meta.d")) else []:
+    if f.endswith(".json"):
+        meta.update(json.load(open(os.path.join(R, "props_meta.d", f))))
 props = [json.loads(l)["id"] for l in open(os.path.join(R, "properties.jsonl")) if l.strip()]
 checks, na = [], []
 for pid in props:
